@@ -573,6 +573,10 @@ pub fn k10(dir: &str, thorough: bool, seed: u64) {
         s("a -> b\n$b: a\n"),
         s("a -?? b\nb -?? c\nc -?? a\n$a: !c\n$b: f(a, a) | g\n"),
         s("a -?? a\nb -?? a\nc -?? a\n"),
+        // zero-arity parameters named like generated table constants
+        s("a -?? b\nb -?? a\n$a: f(b) & !f_1\n$b: a\n"),
+        s("a -?? c\nb -?? c\nc -?? a\n$c: g(a, b) | g_10\n$a: c\n"),
+        s("a -?? b\nb -?? a\n$a: h(b) ^ h_0\n$b: h(a) & k\n"),
     ];
     let n = if thorough { 400 } else { 40 };
     for _ in 0..n {
@@ -580,7 +584,7 @@ pub fn k10(dir: &str, thorough: bool, seed: u64) {
         let nv = 2 + rng.below(2);
         let vars = ["a", "b", "c"];
         let mut text = String::new();
-        let params = [("f", 2usize), ("g", 1usize), ("k", 0usize)];
+        let params = [("f", 2usize), ("g", 1usize), ("k", 0usize), ("g_1", 0usize), ("f_10", 0usize), ("g_0", 0usize)];
         for t in 0..nv {
             for r in 0..nv {
                 text.push_str(&format!("{} -?? {}\n", vars[r], vars[t]));
